@@ -16,11 +16,23 @@ struct In {
     rx_us: u64,
     ts_dms: u32,
     kind: String, // norm | ctrl (control request) | nots (no timestamp flag) | cresp1 (verbose control response, 1-byte bool arg)
+                  // | crsw<n> (non-verbose control response GET_SOFTWARE_VERSION: service id + n further payload bytes)
     boot: u32,    // ground truth for clean traces (0 = n/a)
+    index: Option<u32>, // the message's index field (None = its position in the stream)
 }
 
-fn build(idx: u32, i: &In) -> DltMessage {
-    let mut m = mk_msg(idx, &i.ecu, i.rx_us, i.ts_dms, vec![idx as u8, (idx >> 8) as u8, 0x5a]);
+fn build(pos: u32, i: &In) -> DltMessage {
+    let mut m = mk_msg(i.index.unwrap_or(pos), &i.ecu, i.rx_us, i.ts_dms, vec![pos as u8, (pos >> 8) as u8, (pos >> 16) as u8, 0x5a]);
+    if let Some(n) = i.kind.strip_prefix("crsw") {
+        // non-verbose control response, service id 19 (GET_SOFTWARE_VERSION), n further bytes (status, length, text ...)
+        let n: usize = n.parse().unwrap_or(0);
+        m.extended_header = Some(DltExtendedHeader { verb_mstp_mtin: (3 << 1) | (2 << 4), noar: 0, apid: char4("APID"), ctid: char4("CTID") });
+        let mut p = vec![19u8, 0, 0, 0];
+        let tail: [u8; 12] = [0, 6, 0, 0, 0, b'S', b'W', b' ', b'1', b'.', b'0', 0];
+        p.extend(tail.iter().cycle().take(n));
+        m.payload = p;
+        return m;
+    }
     match i.kind.as_str() {
         "ctrl" => {
             m.extended_header = Some(DltExtendedHeader { verb_mstp_mtin: (3 << 1) | (1 << 4), noar: 0, apid: char4("APID"), ctid: char4("CTID") });
@@ -41,7 +53,7 @@ fn build(idx: u32, i: &In) -> DltMessage {
 
 #[derive(Default, Debug)]
 struct Obs {
-    delivered: Vec<(u32, String, u32, bool, bool, bool, bool)>, // idx, ecu, lc, visible, ecu_ok, vis2, intact
+    delivered: Vec<(i64, String, u32, bool, bool, bool, bool)>, // position of the input it is, ecu, lc, visible, ecu_ok, vis2, intact
     table: Vec<(u32, String, u32, u64, u64, u32)>,               // id, ecu, nr, start_us, end_us, resume_of
     listing: Option<Result<Vec<u32>, String>>,
     panic: Option<String>,
@@ -57,6 +69,7 @@ fn run_detector(segments: &[Vec<DltMessage>], second_thread: bool) -> Obs {
     let (lcs_r, lcs_w) = evmap::new::<LifecycleId, Lifecycle>();
     let originals: Vec<DltMessage> = segments.iter().flatten().cloned().collect();
     let delivered = RefCell::new(Vec::new());
+    let delivered_flags = RefCell::new(vec![false; originals.len()]);
     // optional reader in another thread: synchronous hand-shake, so its answer reflects the moment of delivery
     let (req_tx, req_rx) = std::sync::mpsc::sync_channel::<(LifecycleId, adlt::dlt::DltChar4)>(0);
     let (rsp_tx, rsp_rx) = std::sync::mpsc::sync_channel::<bool>(0);
@@ -95,12 +108,24 @@ fn run_detector(segments: &[Vec<DltMessage>], second_thread: bool) -> Obs {
                 } else {
                     visible && ecu_ok
                 };
-                let intact = originals.get(m.index as usize).map(|o| {
+                // which input is this? the first not yet delivered input equal to it in everything but the lifecycle
+                // (delivery must be in input order, so normally that is the next one); -1 / not intact if there is none
+                let mut dl = delivered_flags.borrow_mut();
+                let start = dl.iter().position(|d| !*d).unwrap_or(originals.len());
+                let same = |o: &DltMessage| {
                     let mut o2 = o.clone();
                     o2.lifecycle = m.lifecycle;
                     o2 == m
-                }).unwrap_or(false);
-                delivered.borrow_mut().push((m.index, ecu_str(&m.ecu), m.lifecycle, visible, ecu_ok, vis2, intact));
+                };
+                let found = (start..originals.len()).chain(0..start).find(|p| !dl[*p] && same(&originals[*p]));
+                let (pos, intact) = match found {
+                    Some(p) => {
+                        dl[p] = true;
+                        (p as i64, true)
+                    }
+                    None => (-1, false),
+                };
+                delivered.borrow_mut().push((pos, ecu_str(&m.ecu), m.lifecycle, visible, ecu_ok, vis2, intact));
                 Ok(())
             })
         }));
@@ -120,8 +145,11 @@ fn run_detector(segments: &[Vec<DltMessage>], second_thread: bool) -> Obs {
     if obs.panic.is_none() {
         if let Some(rr) = lcs_r.read() {
             for (id, b) in &rr {
-                let lc = b.get_one().unwrap();
-                obs.table.push((*id, ecu_str(&lc.ecu), lc.nr_msgs, lc.start_time, lc.end_time(), lc.verif_resume_lc_id().unwrap_or(0)));
+                match b.get_one() {
+                    Some(lc) => obs.table.push((*id, ecu_str(&lc.ecu), lc.nr_msgs, lc.start_time, lc.end_time(), lc.verif_resume_lc_id().unwrap_or(0))),
+                    // a key whose value bag is empty is still a listed entry (readers iterate over it): recorded with 0 messages
+                    None => obs.table.push((*id, "?".to_string(), 0, BASE_US, BASE_US, 0)),
+                }
             }
             obs.table.sort();
             obs.listing = Some(catch(std::panic::AssertUnwindSafe(|| get_sorted_lifecycles_as_vec(&rr).iter().map(|l| l.id()).collect::<Vec<u32>>())));
@@ -150,7 +178,7 @@ fn write_trace(t: &mut Trace, case: u64, hdr: Value, inputs: &[In], obs: &Obs) {
     t.ev(json!({"ev":"reset","case":case,"hdr":hdr}));
     let base = id_base(obs);
     for (i, x) in inputs.iter().enumerate() {
-        t.ev(json!({"ev":"in","idx":i,"ecu":x.ecu,"rx_ms":((x.rx_us.saturating_sub(BASE_US))/1000) as u32 & 0x7fff_ffff,"ts":x.ts_dms & 0x7fff_ffff,"kind":x.kind,"boot":x.boot}));
+        t.ev(json!({"ev":"in","idx":i,"ecu":x.ecu,"rx_ms":((x.rx_us.saturating_sub(BASE_US))/1000) as u32 & 0x7fff_ffff,"ts":x.ts_dms & 0x7fff_ffff,"kind":x.kind,"boot":x.boot,"ix":x.index.map(|v| (v & 0x7fff_ffff) as i64).unwrap_or(i as i64)}));
     }
     for d in &obs.delivered {
         t.ev(json!({"ev":"out","idx":d.0,"ecu":d.1,"lc":rid(d.2, base),"visible":d.3,"ecu_ok":d.4,"vis2":d.5,"intact":d.6}));
@@ -179,7 +207,7 @@ fn write_trace(t: &mut Trace, case: u64, hdr: Value, inputs: &[In], obs: &Obs) {
 }
 
 fn grid_in(ecu: &str, rx_tick: u64, ts_tick: u64, kind: &str) -> In {
-    In { ecu: ecu.to_string(), rx_us: BASE_US + rx_tick * TICK_US, ts_dms: (ts_tick * 10_000) as u32, kind: kind.to_string(), boot: 0 }
+    In { ecu: ecu.to_string(), rx_us: BASE_US + rx_tick * TICK_US, ts_dms: (ts_tick * 10_000) as u32, kind: kind.to_string(), boot: 0, index: None }
 }
 
 /// compare the observation with the prediction TLC printed for this behaviour (data equality only)
@@ -197,7 +225,7 @@ fn matches_prediction(scn: &Value, obs: &Obs) -> bool {
         return false;
     }
     for (p, o) in pd.iter().zip(obs.delivered.iter()) {
-        if p["idx"].as_u64().unwrap() as u32 != o.0 || p["ecu"].as_str().unwrap() != o.1 || p["lc"].as_u64().unwrap() as u32 != rid(o.2, base)
+        if p["idx"].as_i64().unwrap() != o.0 || p["ecu"].as_str().unwrap() != o.1 || p["lc"].as_u64().unwrap() as u32 != rid(o.2, base)
             || p["vis"].as_bool().unwrap() != (o.3 && o.4) || !o.6 || o.5 != (o.3 && o.4)
         {
             return false;
@@ -224,12 +252,41 @@ impl Gen {
         let rxd = [0u64, 0, 1, 1, 2, 9, 10, 11, 29, 31, 59, 60, 61, 62, 120];
         let tsv = [0u64, 0, 1, 2, 9, 10, 11, 12, 20, 59, 60, 61, 70, 71, 116, 118, 130];
         let mut rx = 1000;
+        // index fields: consecutive, or (a third of the streams) with occasional jumps beyond the regular-refresh distance
+        let jumps = self.rng.chance(1, 3);
+        let mut ix = 0u32;
         (0..n).map(|_| {
             rx += *self.rng.pick(&rxd);
             let k = if self.rng.chance(1, 8) { *self.rng.pick(kinds) } else { "norm" };
             let ts = if k == "nots" { 0 } else { *self.rng.pick(&tsv) };
-            grid_in(*self.rng.pick(ecus), rx, ts, k)
+            let mut i = grid_in(*self.rng.pick(ecus), rx, ts, k);
+            if jumps {
+                ix += if self.rng.chance(1, 5) { 100_001 } else { 1 };
+                i.index = Some(ix);
+            }
+            i
         }).collect()
+    }
+    /// one or two ECUs whose lifecycles get confirmed early (timestamp span > 60 s) so that messages are forwarded directly,
+    /// with index jumps that make the regular refresh due, followed by tails of the same / alternating lifecycles
+    fn refresh_stream(&mut self, max_n: u64) -> Vec<In> {
+        let two = self.rng.chance(1, 2);
+        let n = self.rng.range(5, max_n.max(6));
+        let mut rx = 1000u64;
+        let mut ts = [0u64, 0];
+        let mut ix = 0u32;
+        let mut v = Vec::new();
+        for k in 0..n {
+            let e = if two && self.rng.chance(1, 3) { 1 } else { 0 };
+            rx += *self.rng.pick(&[0u64, 0, 1, 2, 61]);
+            ts[e] += if k < 3 { 70 } else { *self.rng.pick(&[0u64, 1, 5, 70]) };
+            if self.rng.chance(1, 40) { ts[e] = 0; }            // reboot
+            let mut i = grid_in(["A", "B"][e], rx.max(ts[e] + 1000), ts[e], "norm");
+            ix += if k >= 3 && self.rng.chance(1, 4) { 100_001 } else { 1 };
+            i.index = Some(ix);
+            v.push(i);
+        }
+        v
     }
     /// "physical" stream: ECUs with boots, delays, suspend/resume, reboots, garbage timestamps, ctrl requests, non-monotonic rx
     fn physical_stream(&mut self, max_n: u64) -> Vec<In> {
@@ -260,7 +317,7 @@ impl Gen {
                 _ => {}
             }
             let rx_here = if self.rng.chance(1, 25) { rx_us.saturating_sub(self.rng.below(3_000_000)) } else { rx_us }; // non-monotonic
-            v.push(In { ecu: names[e].to_string(), rx_us: rx_here, ts_dms: if kind == "nots" { 0 } else { ts_dms }, kind: kind.to_string(), boot: 0 });
+            v.push(In { ecu: names[e].to_string(), rx_us: rx_here, ts_dms: if kind == "nots" { 0 } else { ts_dms }, kind: kind.to_string(), boot: 0, index: None });
         }
         v
     }
@@ -301,11 +358,19 @@ impl Gen {
         // arbitrary interleaving of the ECUs keeping each ECU's own order
         let mut idx = vec![0usize; ne];
         let mut out = Vec::new();
+        // a third of the clean traces carry index fields that jump beyond the regular-refresh distance
+        let jumps = self.rng.chance(1, 3);
+        let mut ix = 0u32;
         loop {
             let live: Vec<usize> = (0..ne).filter(|e| idx[*e] < per_ecu[*e].len()).collect();
             if live.is_empty() { break; }
             let e = *self.rng.pick(&live);
-            out.push(per_ecu[e][idx[e]].clone());
+            let mut i = per_ecu[e][idx[e]].clone();
+            if jumps {
+                ix += if self.rng.chance(1, 4) { 100_001 } else { 1 };
+                i.index = Some(ix);
+            }
+            out.push(i);
             idx[e] += 1;
         }
         (out, boots)
@@ -337,6 +402,7 @@ fn main() {
             let inputs: Vec<In> = scn["inputs"].as_array().unwrap().iter().map(|m| {
                 let mut i = grid_in(m["ecu"].as_str().unwrap(), m["rx"].as_u64().unwrap(), m["ts"].as_u64().unwrap(), m["kind"].as_str().unwrap());
                 i.boot = m.get("boot").and_then(|b| b.as_u64()).unwrap_or(0) as u32;
+                i.index = m.get("ix").and_then(|b| b.as_u64()).map(|x| x as u32);
                 i
             }).collect();
             let clean = scn.get("boots").is_some();
@@ -367,6 +433,7 @@ fn main() {
             ("phantom-5", vec![grid_in("B",1011,70,"norm"),grid_in("A",1022,1,"norm"),grid_in("B",1023,70,"norm"),grid_in("B",1024,1,"ctrl"),grid_in("B",1024,20,"norm")]),
             ("listing-6", vec![grid_in("A",1000,10,"norm"),grid_in("A",1100,20,"norm"),grid_in("A",1101,116,"norm"),grid_in("A",1102,70,"norm"),grid_in("A",1103,118,"norm"),grid_in("B",1104,117,"norm")]),
             ("cresp1", vec![grid_in("A",1000,1,"norm"),grid_in("A",1001,2,"cresp1"),grid_in("A",1002,3,"cresp1"),grid_in("A",1003,4,"norm")]),
+            ("crsw", vec![grid_in("A",1000,1,"norm"),grid_in("A",1001,2,"crsw0"),grid_in("A",1002,3,"crsw1"),grid_in("A",1003,4,"crsw4"),grid_in("A",1004,5,"crsw5"),grid_in("A",1005,6,"crsw12"),grid_in("A",1006,7,"norm")]),
         ];
         for (name, inputs) in regs {
             let obs = run_detector(&[msgs_of(&inputs, 0)], true);
@@ -379,11 +446,14 @@ fn main() {
     let n_random = a.num("--random", 0);
     let max_n = a.num("--max-len", 40);
     for i in 0..n_random {
-        let style = i % 5;
+        let style = i % 6;
+        let crsw = ["norm", "ctrl", "nots", "crsw0", "crsw1", "crsw4", "crsw5", "crsw12", "cresp1"];
         let inputs = match style {
             0 => g.grid_stream(max_n.min(14), &["A"], &["norm", "ctrl", "nots"]),
-            1 | 2 => g.grid_stream(max_n.min(14), &["A", "B"], &["norm", "ctrl", "nots"]),
+            1 => g.grid_stream(max_n.min(14), &["A", "B"], &["norm", "ctrl", "nots"]),
+            2 => g.grid_stream(max_n.min(14), &["A", "B"], &crsw),
             3 => g.grid_stream(max_n, &["A", "B", "C"], &["norm", "ctrl"]),
+            4 => g.refresh_stream(max_n.min(30)),
             _ => g.physical_stream(max_n * 4),
         };
         let prepop = g.rng.chance(1, 6) && inputs.len() >= 4;
@@ -437,7 +507,7 @@ fn main() {
             let data = std::fs::read(&f).unwrap();
             let it = adlt::utils::DltMessageIterator::new(0, std::io::Cursor::new(data));
             let msgs: Vec<DltMessage> = it.take(a.num("--file-max", 3000) as usize).collect();
-            let inputs: Vec<In> = msgs.iter().map(|m| In { ecu: ecu_str(&m.ecu), rx_us: m.reception_time_us, ts_dms: m.timestamp_dms, kind: "file".to_string(), boot: 0 }).collect();
+            let inputs: Vec<In> = msgs.iter().map(|m| In { ecu: ecu_str(&m.ecu), rx_us: m.reception_time_us, ts_dms: m.timestamp_dms, kind: "file".to_string(), boot: 0, index: Some(m.index) }).collect();
             let obs = run_detector(&[msgs], true);
             if obs.panic.is_some() { panics += 1; }
             write_trace(&mut t, case, json!({"kind":"stream","src":f.rsplit('/').next().unwrap(),"prepop":false,"boots":[]}), &inputs, &obs);
